@@ -76,17 +76,22 @@ def digits(r, D, lead=True):
 
 def documented_branch(lit):
     """Which branch of from_str a literal takes according to the documented switch: (man, exp) after stripping the
-    trailing zeros of the fractional part; approximate iff |exp| > 400."""
+    trailing zeros of the fractional part; approximate iff |exp| > 400 + bitcount(man)//3 (the rule since the fix
+    e389835: literals whose exponent is comparable to their digit count are converted exactly, so no literal inside
+    1e-100..1e100 reaches the approximate branch)."""
     x = lit.lower().strip()
     if '/' in x:
         return 'rational', 0
     parts = x.split('e')
     exp = int(parts[1]) if len(parts) == 2 else 0
-    x = parts[0]
+    x = parts[0].lstrip('+-')
     if '.' in x:
         a, b = x.split('.')
-        exp -= len(b.rstrip('0'))
-    return ('approx-branch' if abs(exp) > 400 else 'exact-branch'), exp
+        b = b.rstrip('0')
+        exp -= len(b)
+        x = a + b
+    man = int(x or '0')
+    return ('approx-branch' if abs(exp) > 400 + man.bit_length() // 3 else 'exact-branch'), exp
 
 
 def no_digits_left(lit):
@@ -601,8 +606,9 @@ def required(agg, tier):
         for m in G.MODES:
             if not any(('/%s/%s/' % (b, m)) in k for k in cl):
                 miss.append('no %s case in mode %s' % (b, m))
-    if not any(k.startswith('tie-long/approx-branch/n/env') for k in cl):
-        miss.append('no in-envelope literal reached the approximate branch in nearest mode')
+    for f in ('tie-long', 'grid-long', 'fixed-long'):
+        if not any(k.startswith(f + '/') and k.endswith('/n/env') for k in cl):
+            miss.append('no in-envelope many-digit literal of form %s in nearest mode' % f)
     if not agg['events'].get('directed side decided'):
         miss.append('no directed conversion was decided')
     if not agg['events'].get('in-envelope result compared with exact rounding'):
